@@ -23,6 +23,8 @@ theorem legal_ok {T : Nat} {s : St} {o : Op} (hi : Inv T s) (hl : legal s o = tr
       split
       · rcases htr hrl with ht | ht <;> simp [timerExpired, ttInput, ht, TrafficTimer.table]
       · rfl
+  | pause => rfl
+  | resume => rfl
   | start =>
     simp only [legal, beq_iff_eq] at hl
     simp [step, mgrInput, hl, Manager.table, mgrOutputs, mgrOutput]
